@@ -113,7 +113,9 @@ func c20Cases(quick bool) []c20Case {
 				op, x, y := op, x, y
 				q1 := bson.D{{Key: "a", Value: bson.D{{Key: op, Value: bson.A{x, y}}}}}
 				q2 := bson.D{{Key: "a.b", Value: bson.D{{Key: "$not", Value: bson.D{{Key: op, Value: bson.A{x, y}}}}}}}
-				add("match-pair:"+op, false, func() string { return "mongokit.Match(every document and {a: each numeric operand}, " + short(J(q1), 300) + ") and under $not on a.b" }, func(*world.World) {
+				add("match-pair:"+op, false, func() string {
+					return "mongokit.Match(every document and {a: each numeric operand}, " + short(J(q1), 300) + ") and under $not on a.b"
+				}, func(*world.World) {
 					for _, d := range D {
 						_, _ = mongokit.Match(clone(d), &q1)
 						_, _ = mongokit.Match(clone(d), &q2)
